@@ -333,7 +333,8 @@ def c11_scenario(rep, binary, workdir, rng, frame_maker, attempt=0):
     out_file = os.path.join(workdir, f"c11sys.{os.getpid()}.jsonl")
     if os.path.exists(out_file):
         os.unlink(out_file)
-    args = ["-o", out_file, "--history-expire", "0"]
+    # history kept (default) so that GET /track shows what the filters let into it
+    args = ["-o", out_file, "--history-expire", "600"]
     # multi-valued options are given once per value
     if df_filter is not None:
         for d in df_filter:
@@ -342,7 +343,8 @@ def c11_scenario(rep, binary, workdir, rng, frame_maker, attempt=0):
         rng.shuffle(ac_filter)
         for a in ac_filter:
             args += ["--aircraft-filter", "%06x" % a]
-    run = Run(binary, workdir, nsrc=1, window=100, args=args, tag="c11sys")
+    run = Run(binary, workdir, nsrc=1, window=100, args=args, serve=True, tag="c11sys")
+    tracks = {}
     try:
         order = [f[1] for f in frames]
         rng.shuffle(order)
@@ -354,6 +356,14 @@ def c11_scenario(rep, binary, workdir, rng, frame_maker, attempt=0):
         time.sleep(1.5)
         lines = run.records()
         alive = run.proc.poll() is None
+        # the history behind the REST endpoint is the fourth sink of the same verdict
+        hist_frames = [f for f in frames if f[0] in (17, 18, 20, 21)]  # the formats the history keeps
+        for df, fr, addr, _ in rng.sample(hist_frames, min(16, len(hist_frames))):
+            try:
+                tracks["%06x" % addr] = run.rest("track?icao24=%06x" % addr)
+            except Exception:
+                rep.cls("system:rest-track-unreachable(not judged)")
+                break
     finally:
         code, err = run.stop()
     try:
@@ -385,6 +395,12 @@ def c11_scenario(rep, binary, workdir, rng, frame_maker, attempt=0):
         if not ok:
             rep.violation(f"C11:system:wrongly-kept:DF{o.get('df')}", f"jet1090 {' '.join(args[4:])} printed a record with df={o.get('df')} icao24={o.get('icao24')}: {l[:160]}", replay)
         rep.cls("system:stdout-records")
+    for icao, hist in tracks.items():
+        for h in hist or []:
+            rep.cls("system:history-records")
+            ok = (want_df is None or h.get("df") in want_df) and (want_ac is None or h.get("icao24") in want_ac)
+            if not ok:
+                rep.violation(f"C11:system:history-wrongly-kept:DF{h.get('df')}", f"jet1090 {' '.join(args[4:])}: GET /track?icao24={icao} serves a record with df={h.get('df')} icao24={h.get('icao24')}", replay)
     if file_lines is None:
         rep.violation("C11:system:no-output-file", "-o file was not written", replay)
     elif file_lines != lines:
